@@ -80,3 +80,29 @@ Fixpoint win_layout_bp (mem : Z -> option Z) (in_stack : Z -> bool) (lookup : Z 
       end /\ bp' < 2 ^ 32 /\
       win_layout_bp mem in_stack lookup false (psz ps) ra (esp + F + 4) bp' rest
   end.
+
+(* ---- standard ebp frames (the module docs' worked example): every function carries a frame-data record with
+   `$T0 $ebp = $eip $T0 4 + ^ = $ebp $T0 ^ = $esp $T0 8 + =`; the callee's ebp points at the saved ebp, the return
+   address sits right above it.  An activation = (record, parameter size, return address, the caller's ebp). ---- *)
+Definition prog_ebp_frame_b : bytes :=
+  [36; 84; 48; 32; 36; 101; 98; 112; 32; 61; 32; 36; 101; 105; 112; 32; 36; 84; 48; 32; 52; 32; 43; 32; 94; 32; 61; 32;
+   36; 101; 98; 112; 32; 36; 84; 48; 32; 94; 32; 61; 32; 36; 101; 115; 112; 32; 36; 84; 48; 32; 56; 32; 43; 32; 61].
+
+Fixpoint ebp_layout (mem : Z -> option Z) (in_stack : Z -> bool) (lookup : Z -> option (win_info * option Z))
+                    (ctx : bool) (gcps eip esp ebp : Z) (acts : list act_bp) : Prop :=
+  match acts with
+  | [] => True
+  | (i, ps, ra, bp') :: rest =>
+      lookup eip = Some (i, ps) /\ w_thing i = ProgramString prog_ebp_frame_b /\ (ctx = false -> in_stack esp = true) /\
+      (* the predefined .raSearch must be computable although the program does not use it *)
+      (exists fs, win_frame_size i gcps = Some fs /\ 0 <= fs /\ esp + fs < 2 ^ 32) /\
+      0 <= esp < 2 ^ 32 /\ esp < ebp + 8 /\ ebp + 8 < 2 ^ 32 /\ 0 <= ebp /\
+      mem (ebp + 4) = Some ra /\ 4096 <= ra < 2 ^ 32 /\ mem ebp = Some bp' /\ 0 <= bp' < 2 ^ 32 /\
+      ebp_layout mem in_stack lookup false (psz ps) ra (ebp + 8) bp' rest
+  end.
+
+Fixpoint ebp_chain (ebp : Z) (acts : list act_bp) : list xregs :=
+  match acts with
+  | [] => []
+  | (i, ps, ra, bp') :: rest => mkX ra (ebp + 8) bp' :: ebp_chain bp' rest
+  end.
